@@ -278,8 +278,108 @@ def name_cases(ctx):
         pass
 
 
+def names_stream(ctx, rng, n):
+    """random pin sets (base and mode names from a small alphabet, so that printable names collide by accident:
+    Pin('a','b') vs Pin('a_b')) and random renamings (fresh names, swaps, chains, collisions with pins that stay);
+    oracle = the simultaneous renaming; colliding printable names must be rejected with the model left as it was"""
+    L = impl.lk()
+    bases = ["a", "b", "a_b", "c", "a_b_c", "b_c"]
+    modes = [None, None, "b", "c", "b_c", "TE"]
+
+    def rpin():
+        return (rng.choice(bases), rng.choice(modes))
+    name = lambda t: t[0] if t[1] is None else f"{t[0]}_{t[1]}"
+    for i in range(n):
+        k = rng.randint(1, 5)
+        pins = []
+        while len(pins) < k:
+            t = rpin()
+            if t not in pins:
+                pins.append(t)
+        # renaming: keys among the pins (plus sometimes a pin that is not there); targets: fresh / another pin / swap
+        rho = {}
+        kind = rng.choice(["none", "fresh", "swap", "chain", "mixed", "mixed"])
+        if kind == "fresh":
+            for t in rng.sample(pins, rng.randint(1, len(pins))):
+                rho[t] = (t[0] + "x", t[1])
+        elif kind == "swap" and len(pins) >= 2:
+            x, y = rng.sample(pins, 2)
+            rho[x], rho[y] = y, x
+        elif kind == "chain" and len(pins) >= 2:
+            seq = rng.sample(pins, rng.randint(2, len(pins)))
+            for a, b in zip(seq, seq[1:]):
+                rho[a] = b
+            rho[seq[-1]] = (rng.choice(["z", "a"]), None)
+        elif kind == "mixed":
+            for t in rng.sample(pins, rng.randint(1, len(pins))):
+                rho[t] = rng.choice(pins + [rpin(), rpin()])
+            if rng.random() < 0.3:
+                rho[rpin()] = rpin()
+        rep = {"kind": "names-random", "pins": [list(t) for t in pins], "rename": [[list(a), list(b)] for a, b in rho.items()]}
+        new = [rho.get(t, t) for t in pins]
+        collide0 = len({name(t) for t in pins}) != len(pins)
+        collide1 = len({name(t) for t in new}) != len(new)
+        ctx.case(rep, nontrivial=bool(rho), tags=["stream:names-random", f"rename:{kind}", "collision:before" if collide0 else ("collision:after" if collide1 else "collision:none")])
+        mk = lambda t: L.Pin(t[0], t[1])
+        idx = list(range(k))
+        rng.shuffle(idx)
+        # --- implementation
+        try:
+            m = L.Model(pin_dic={mk(t): j for t, j in zip(pins, idx)}, Smatrix=np.arange(k * k).reshape(k, k).astype(complex))
+            built = True
+        except ValueError:
+            built = False
+        except Exception as e:  # noqa
+            ctx.violation(f"C16:names-raised-{type(e).__name__}", f"Model construction raised {type(e).__name__}", rep)
+            continue
+        if built == collide0:
+            ctx.violation("C16:name-collision-model", f"Model with pins {pins}: printable names {'collide but it was accepted' if collide0 else 'are distinct but it was rejected'}", rep)
+            continue
+        ans = ctx.driver.ask({"op": "names", "pins": rep["pins"], "rename": rep["rename"], "resolve": sorted({name(t) for t in new} | {name(t) for t in pins})})
+        if ("model" not in ans) or ((ans["model"] == "ValueError") != collide0) or ((ans["renamed"] == "ValueError") != collide1 and not collide0):
+            ctx.disagreement("C16.model.names", f"Lean name table disagrees with the reference: {str(ans)[:120]}", rep)
+        if not built:
+            continue
+        before = {(p.basename, p.mode_name): j for p, j in m.pin_dic.items()}
+        try:
+            m.pin_mapping({mk(a): mk(b) for a, b in rho.items()})
+            ok = True
+        except ValueError:
+            ok = False
+        except Exception as e:  # noqa
+            ctx.violation(f"C16:names-raised-{type(e).__name__}", f"pin_mapping raised {type(e).__name__}: {str(e)[:60]}", rep)
+            continue
+        after = {(p.basename, p.mode_name): j for p, j in m.pin_dic.items()}
+        if collide1:
+            if ok:
+                ctx.violation("C16:rename-collision-accepted", f"pin_mapping {rho} on {pins} makes two pins print alike (or merges two pins) but was accepted; pins now {list(after)}", rep)
+            elif after != before or set(m.pin) != {name(t) for t in pins}:
+                ctx.violation("C16:rename-nonatomic", "a rejected pin_mapping changed the model", rep)
+            continue
+        want = {rho.get(t, t): j for t, j in zip(pins, idx)}
+        if not ok:
+            ctx.violation("C16:rename-rejected", f"valid renaming {rho} of {pins} was rejected", rep)
+            continue
+        if after != want:
+            ctx.violation("C16:rename-not-simultaneous", f"pin_mapping {rho} on {dict(zip(pins, idx))} gives {after}, the renaming gives {want}", rep)
+            continue
+        if {n_: (p.basename, p.mode_name) for n_, p in m.pin.items()} != {name(t): t for t in want}:
+            ctx.violation("C16:pin-mapping-table", "the name table of a renamed model does not list exactly the new names", rep)
+            continue
+        # Lean model: resolved names
+        if "resolved" in ans and ans["renamed"] != "ValueError":
+            got = {nm: (tuple(r) if isinstance(r, list) else r) for nm, r in zip(sorted({name(t) for t in new} | {name(t) for t in pins}), ans["resolved"])}
+            for nm, r in got.items():
+                exp = m.pin.get(nm)
+                expt = (exp.basename, exp.mode_name) if exp is not None else "KeyError"
+                if r != expt:
+                    ctx.disagreement("C16.model.names", f"resolve({nm}) = {r} in the model, {expt} in the implementation", rep)
+                    break
+
+
 def run(ctx):
     rng = ctx.subrng("c16")
+    names_stream(ctx, ctx.subrng("c16-names"), ctx.budget(150, 2000))
     n = ctx.budget(300, 5000)
     maxops = 14 if ctx.tier == "quick" else 30
     import props.c07 as c07
@@ -311,7 +411,39 @@ def run(ctx):
     name_cases(ctx)
 
 
+def replay_names(ctx, data):
+    import random
+    # re-run the stream deterministically until the same case appears is not possible; rebuild the case directly
+    L = impl.lk()
+    pins = [tuple(t) for t in data["pins"]]
+    rho = {tuple(a): tuple(b) for a, b in data["rename"]}
+    name = lambda t: t[0] if t[1] is None else f"{t[0]}_{t[1]}"
+    mk = lambda t: L.Pin(t[0], t[1])
+    new = [rho.get(t, t) for t in pins]
+    collide0 = len({name(t) for t in pins}) != len(pins)
+    collide1 = len({name(t) for t in new}) != len(new)
+    try:
+        m = L.Model(pin_dic={mk(t): j for j, t in enumerate(pins)})
+    except ValueError:
+        return (collide0, "colliding names rejected at construction" if collide0 else "distinct names rejected at construction")
+    if collide0:
+        return False, "colliding printable names accepted at construction"
+    before = {(p.basename, p.mode_name): j for p, j in m.pin_dic.items()}
+    try:
+        m.pin_mapping({mk(a): mk(b) for a, b in rho.items()})
+        ok = True
+    except ValueError:
+        ok = False
+    after = {(p.basename, p.mode_name): j for p, j in m.pin_dic.items()}
+    if collide1:
+        return (not ok and after == before), ("colliding renaming rejected, model unchanged" if (not ok and after == before) else f"colliding renaming gives {after}")
+    want = {rho.get(t, t): j for j, t in enumerate(pins)}
+    return (ok and after == want), (f"renaming gives {after}, expected {want}")
+
+
 def replay(ctx, data):
+    if isinstance(data, dict) and data.get("kind") == "names-random":
+        return replay_names(ctx, data)
     import props.c07 as c07
     if data.get("kind") == "sequence":
         comps = c07.comps_from_json(data["comps"])
